@@ -232,6 +232,24 @@ def iterate_ds(ds, r):
             except ValueError:
                 outs.append("error")
         return outs
+    if iface == "iface_seq":
+        # several selections one after another on ONE handle through a real interface, each with a fresh inline predicate
+        outs = []
+        for o in r["seq"]:
+            fv = o.get("filter")
+            kw3 = {"split": split, "repeat": False, "shuffle": 0}
+            if fv is not None:
+                kw3["shard_filter"] = mk_filter(fv)
+            if o.get("shards") is not None:
+                kw3["shards"] = o["shards"]
+            try:
+                if r.get("via") == "concurrent":
+                    outs.append([val(e) for e in ds.as_numpy_iterator_concurrent(file_parallelism=2, **kw3)])
+                else:
+                    outs.append([val(e) for e in ds.as_numpy_iterator(**kw3)])
+            except ValueError:
+                outs.append("error")
+        return outs
     if iface == "paths":
         # the selection itself: indices (in depth-first order) of the shard files shard_paths_dataset returns
         info = json.loads((ds.path / "dataset_info.json").read_text())
